@@ -43,6 +43,12 @@ func c11RunSeed(seed uint64, tier string) *Outcome {
 	if err != nil {
 		return &Outcome{InfraErr: err}
 	}
+	if seed%3 == 1 {
+		// a sparse but valid genesis: optional fields left out (they mean their zero values)
+		tr.Spec.Minter = dropJSONKeys(tr.Spec.Minter, "last_mint_block_time", "state_history", "remainder_to_mint")
+		tr.Spec.Vesting = dropJSONKeys(tr.Spec.Vesting, "vesting_account_trace_count_unused")
+		tr.Spec.Distributor = dropJSONKeys(tr.Spec.Distributor, "states")
+	}
 	return c11Exec(tr, src, seed%4 == 0)
 }
 
